@@ -17,7 +17,8 @@
 From Coq Require Import ZArith List Lia.
 Import ListNotations.
 From Mds Require Import Common.FnRt GenTie.StreeTieNewLimit.
-From Mds Require Import GenTie.StreeTieBase GenTie.StreeSep GenTie.StreeSource GenTie.StreeTieNew GenTie.StreeSourceNew.
+From Mds Require Import GenTie.StreeTieBase GenTie.StreeSep GenTie.StreeSource GenTie.StreeTieNew GenTie.StreeSourceNew
+  GenTie.StreeSourceNewHeight.
 From Mds Require Import Stree.StreeSpec.
 From Mds Require Gen.FnStreeNew Stree.HeightModel Stree.HeightLimit.
 Local Open Scope Z_scope.
@@ -113,4 +114,76 @@ Example C02_new_height_source_ex :
 Proof.
   vm_compute. split; [reflexivity|]. split; [reflexivity|].
   eapply hreach_left; [reflexivity|]. eapply hreach_right; [reflexivity|]. eapply hreach_here. reflexivity.
+Qed.
+
+(* C02 over histories from the generated constructor: C02_history_source with the start state
+   replaced by the object the generated New(β, cmp, keys...) returns.  [limit] is the function handed
+   to New as limitFunc (the record's limit field is limit β) and must satisfy H1 and H2; the peak P
+   starts at the size New recorded.  After every history (hence every prefix): size <= P, the
+   reachable cells are exactly a tree-shaped region, each at a depth d with d <= 1 or
+   2000^(d-1) <= P*(1000+β)^(d-1). *)
+Theorem C02_history_source_new : forall (T : Type) (cmp : T -> T -> Z), total_preorder cmp ->
+  forall limit : Z -> Z -> Z, HeightModel.limit_H1 limit -> HeightModel.limit_H2 limit ->
+  forall (srt : list (option nat) -> (unit -> option nat -> option nat -> res (Z * unit)) -> res (list (option nat)))
+    (cpt : list (option nat) -> (unit -> option nat -> option nat -> res (bool * unit)) -> res (list (option nat))),
+  @sort_contract T srt -> compact_contract cpt ->
+  forall (zero : T) (b : Z) (keys : list T) (h0 : list (G.node T)) (ops : list (sop T)), 0 <= b < 1000 ->
+  exists (tr : G.Tree T) (h : list (G.node T)),
+    gnew cmp limit srt cpt b keys h0 = Ok (tr, h) /\
+    G.Tree_compare tr = cmp /\ G.Tree_β tr = b /\ G.Tree_limit tr = limit b /\
+    let st := gexec cmp limit zero b (gst_of tr h) ops in
+    let P := gpeak cmp limit zero b (gst_of tr h) (G.Tree_size tr) ops in
+    g_size st <= P /\
+    (exists t F, trepr (g_heap st) (g_root st) t F /\
+       (forall x, In x F <-> exists d, hreach (g_heap st) (g_root st) x d)) /\
+    forall x d, hreach (g_heap st) (g_root st) x d ->
+      (d <= 1)%nat \/ 2000 ^ (Z.of_nat d - 1) <= P * (1000 + b) ^ (Z.of_nat d - 1).
+Proof. exact @height_source_new. Qed.
+Print Assumptions C02_history_source_new.
+
+(* The whole constructor side generated: t.limit is [gen_limit], the function the GENERATED limitFunc
+   returns (float64 abstract).  Under the float contract flt_exact it satisfies H1 and H2, so nothing
+   is left to assume of the depth limit except that contract (and the two contracts of package
+   slices).  Nothing is proved about IEEE rounding. *)
+Theorem C02_history_source_new_gen : forall (Flt : Type) (Flt_of_Z : Z -> Flt)
+  (Flt_add Flt_div : Flt -> Flt -> Flt) (Flt_eqb : Flt -> Flt -> bool) (math_Log : Flt -> Flt)
+  (Flt_to_Z : Flt -> Z) (den : Flt -> Z * Z -> Prop),
+  flt_exact Flt Flt_of_Z Flt_add Flt_div Flt_eqb math_Log Flt_to_Z den ->
+  forall (T : Type) (cmp : T -> T -> Z), total_preorder cmp ->
+  forall (srt : list (option nat) -> (unit -> option nat -> option nat -> res (Z * unit)) -> res (list (option nat)))
+    (cpt : list (option nat) -> (unit -> option nat -> option nat -> res (bool * unit)) -> res (list (option nat))),
+  @sort_contract T srt -> compact_contract cpt ->
+  forall (zero : T) (b : Z) (keys : list T) (h0 : list (G.node T)) (ops : list (sop T)), 0 <= b < 1000 ->
+  let limit := gen_limit Flt Flt_of_Z Flt_add Flt_div Flt_eqb math_Log Flt_to_Z in
+  exists (tr : G.Tree T) (h : list (G.node T)),
+    gnew cmp limit srt cpt b keys h0 = Ok (tr, h) /\
+    G.Tree_compare tr = cmp /\ G.Tree_β tr = b /\ G.Tree_limit tr = limit b /\
+    let st := gexec cmp limit zero b (gst_of tr h) ops in
+    let P := gpeak cmp limit zero b (gst_of tr h) (G.Tree_size tr) ops in
+    g_size st <= P /\
+    (exists t F, trepr (g_heap st) (g_root st) t F /\
+       (forall x, In x F <-> exists d, hreach (g_heap st) (g_root st) x d)) /\
+    forall x d, hreach (g_heap st) (g_root st) x d ->
+      (d <= 1)%nat \/ 2000 ^ (Z.of_nat d - 1) <= P * (1000 + b) ^ (Z.of_nat d - 1).
+Proof. exact height_source_new_gen. Qed.
+Print Assumptions C02_history_source_new_gen.
+
+(* the whole chain runs: symbolic floats (the contract's witness), insertion sort, the generated
+   limitFunc as t.limit; seven keys (two duplicates), then 6, 7 and 2 added: peak 8, the cell of key
+   2 (address 9) ends three steps below the root *)
+Example C02_history_source_new_gen_ex :
+  let limit := gen_limit sflt s_of_Z s_add s_div s_eqb s_log s_to_Z in
+  match gnew s3h_cmp limit sort_cb compact_cb 250 s3h_keys [] with
+  | Ok (tr, h) =>
+    let ops := [SAdd (6,7); SAdd (7,8); SAdd (2,9)] in
+    let st := gexec s3h_cmp limit (0,0) 250 (gst_of tr h) ops in
+    G.Tree_limit tr 8 = 4 /\ gpeak s3h_cmp limit (0,0) 250 (gst_of tr h) (G.Tree_size tr) ops = 8 /\
+    g_size st = 8 /\ hreach (g_heap st) (g_root st) 9%nat 3 /\
+    2000 ^ (3 - 1) <= 8 * (1000 + 250) ^ (3 - 1)
+  | _ => False
+  end.
+Proof.
+  vm_compute. split; [reflexivity|]. split; [reflexivity|]. split; [reflexivity|]. split; [|discriminate].
+  eapply hreach_left; [reflexivity|]. eapply hreach_right; [reflexivity|]. eapply hreach_left; [reflexivity|].
+  eapply hreach_here. reflexivity.
 Qed.
